@@ -138,6 +138,10 @@ func buildNode(mn *mnode, r *rec, literal, useNew bool, src srcFns) *liveNode {
 		return mkS(First{Values: arrS(), R: r}, useNew, r)
 	case kUntil:
 		return mkS(Until{Values: arrI(), R: r}, useNew, r)
+	case kChkI:
+		return mkI(ChkI{In: src.i(nm(0)), R: r}, useNew, r)
+	case kChkS:
+		return mkS(ChkS{In: src.s(nm(0)), R: r}, useNew, r)
 	}
 	panic("unknown kind")
 }
